@@ -139,8 +139,9 @@ def run(tier, replay_file=None):
     R.cov["trees_enumerated"] = len(trees)
     if quick:
         core = [t for t in trees if t["core"]]
-        rest = [t for t in trees if not t["core"]]
-        trees = rng.sample(core, min(500, len(core))) + rng.sample(rest, min(500, len(rest))) + chains
+        mixed = [t for t in trees if " AND " in t["xmin"] and " OR " in t["xmin"]]      # AND and OR in one condition: always replayed
+        rest = [t for t in trees if not t["core"] and t not in mixed]
+        trees = rng.sample(core, min(500, len(core))) + rng.sample(rest, min(500, len(rest))) + rng.sample(mixed, min(150, len(mixed))) + chains
     workdir = tempfile.mkdtemp(prefix="vx_")
     stats = {}
     try:
